@@ -8,19 +8,8 @@ namespace Mrm
 
 /-! ### the domain -/
 
-theorem wf_of_WfRO {d : Xml} (h : WfRO d = true) :
-    ∃ rc, rcOf d = some rc ∧ WfKids "story" rc.kids = true ∧
-      ∀ s ∈ rc.kids, s.tag = "story" → WfKids "item" s.kids = true := by
-  unfold WfRO at h
-  split at h
-  · cases h
-  · rename_i rc hrc
-    simp only [Bool.and_eq_true, List.all_eq_true, Bool.or_eq_true, bne_iff_ne, ne_eq] at h
-    refine ⟨rc, hrc, h.1, ?_⟩
-    intro s hs ht
-    rcases h.2 s hs with h' | h'
-    · exact absurd ht h'
-    · exact h'
+theorem wf_of_WfRO {d : Xml} (h : WfRO d = true) : ∃ rc, rcOf d = some rc :=
+  Option.isSome_iff_exists.mp h
 
 theorem setRcKids_self {d rc : Xml} (h : rcOf d = some rc) : setRcKids d rc.kids = d := by
   obtain ⟨i, hi, hget⟩ := rcIndex_of_rcOf h
@@ -150,7 +139,7 @@ theorem frame_any (i : MergeInput) (h : DomC03 i = true) :
   obtain ⟨d, m, k⟩ := i
   simp only [DomC03, Bool.and_eq_true] at h
   obtain ⟨⟨hwf, _⟩, hsh⟩ := h
-  obtain ⟨rc, hrc, hw, hwi⟩ := wf_of_WfRO hwf
+  obtain ⟨rc, hrc⟩ := wf_of_WfRO hwf
   obtain ⟨hmid, base, hb, hne, hsend⟩ := shaped_facts hsh
   by_cases hc : completed d = true
   · have hadd : addK k d m = ⟨d, [], some .completed⟩ := by simp [addK, hc]
@@ -180,12 +169,12 @@ theorem frame_any (i : MergeInput) (h : DomC03 i = true) :
           simp only [mdQ, Bool.not_eq_false', List.any_eq_true]
           exact ⟨s, hs, sameMdKey_self s⟩
       · intro hsl
-        apply storyLevel_filter k rc base _ hsl hw
+        apply storyLevel_filter k rc base _ hsl
         intro hks story hst
         obtain ⟨body, hbody, hn⟩ := hsend hks
         exact convertStorySend_id hbody hn hst
       · intro hil
-        exact itemLevel_shape k rc base _ hil hw hwi
+        exact itemLevel_shape k rc base _ hil
     · obtain ⟨j, hj, hget⟩ := rcIndex_of_rcOf hrc
       cases k <;> first | (simp [Kind.editsRc] at hk; done) | skip
       · exact absurd rfl hne
